@@ -11,9 +11,11 @@ def run(ctx):
             for i, line in enumerate(open(part)):
                 if ctx.quick and cfg == "Gen_n2u" and i % 2:
                     continue                      # quick: every second of the systems coupled with the implicit equation
+                if cfg in ("Gen_n3", "Gen_n3z") and i % 4:
+                    continue                      # three classes: every fourth system of the enumeration
                 out.write(line.replace('"run":true', '"run":false'))
     ctx.sample(scen, 2)
-    trace = ctx.execute("system", scen, timeout_s=60)
+    trace = ctx.execute("system", scen, timeout_s=60, wall=3000 if ctx.quick else 12000)
     ctx.validate("System", "Trace_System.tla", "Trace_C05.cfg", trace, "system", parallel=12)
     n = ctx.cov["traces_validated_against_impl"]
     ctx.cov["evaluations"] = n * 8
